@@ -348,7 +348,7 @@ theorem calleeOK_of (R : RenTable) (ft : FTab) (htab : TableOK R ft) (k : Nat)
   have hlocS : ∀ x, s0.isLocal x = isLoc ps bound (declaredGlobals b) x := by
     intro x; rw [isLocal_inner]; rfl
   have hrel : Rel π (fnP ps b) s0 s1' := by
-    refine ⟨hinv.globals, hinv.out, hinv.imports, ?_, ?_, ?_, ?_⟩
+    refine ⟨hinv.globals, hinv.out, hinv.imports, by rw [hl1]; rfl, ?_, ?_, ?_, ?_⟩
     · intro x hx
       rw [hisl1, hloc0, hlocS]
       exact F.locEq x ((fnP_iff ps b x).mp hx)
@@ -460,7 +460,9 @@ theorem renStmt_id (π : Ren) (hπ : ∀ x, π x = x) : (st : Stmt) → renStmt 
   | .classDef .. => rfl
   | .delete _ => rfl
   | .typeAlias .. => rfl
-  | .annAssign .. => rfl
+  | .annAssign tg ann v simple => by
+    simp only [renStmt, renE_fixed π tg (all_fixed_of_id π hπ _), renE_fixed π ann (all_fixed_of_id π hπ _),
+      renO_fixed π v (all_fixed_of_id π hπ _)]
   | .with_ .. => rfl
   | .match_ .. => rfl
   | .nonlocal _ => rfl
@@ -517,7 +519,7 @@ theorem fixedH_id (π : Ren) (hπ : ∀ x, π x = x) : (hs : List Handler) → f
 end
 
 theorem rel_id_refl (s : St) : Rel id (fun _ => true) s s :=
-  ⟨rfl, rfl, rfl, fun _ _ => rfl, fun _ _ _ => rfl, fun _ _ _ => rfl, fun _ _ _ _ h => h⟩
+  ⟨rfl, rfl, rfl, rfl, fun _ _ => rfl, fun _ _ _ => rfl, fun _ _ _ => rfl, fun _ _ _ _ h => h⟩
 
 theorem stat_id : Stat id (fun _ => true) := ⟨fun _ _ => rfl, fun _ _ => rfl⟩
 
